@@ -593,6 +593,63 @@ def run(ctx):
                    "dispatching a %s raises AttributeError at the first propagation test, before any listener is called" % (init.cls.name, ", ".join("self." + f for f in missing), c.name))
         else:
             r.ok("%s(): %s initialised on every path" % (c.name, ", ".join(need)))
+    # ---------------------------------------------------------------- R13
+    r = ctx.rule("C12-R13", "ORDER", "'listeners registered for an event are called': the dispatcher the application keeps is the one the configuration has AFTER the CONFIG listeners "
+                 "ran (a CONFIG listener may install another) - no value read from the configuration before the CONFIG dispatch is used after it", reference=1)
+    capp = ctx.cls("clikit.console_application.ConsoleApplication")
+    ci = capp.methods.get("__init__")
+    ctx.require(ci is not None, "ConsoleApplication.__init__ missing")
+    icfg = ctx.cfg(ci)
+    dnodes = [x for c in q.calls(ci) if isinstance(c.func, ast.Attribute) and c.func.attr == "dispatch" and c.args and norm(c.args[0]).endswith("CONFIG") for x in icfg.nodes_of(c)]
+    if not dnodes:
+        r.vacuous_ok = True
+        r.note("the constructor dispatches no CONFIG event")
+    else:
+        cfg_param = [a for a in ci.params if a != "self"][0]
+        early = [w for w in icfg.nodes if w.kind == "stmt" and isinstance(w.ast, ast.Assign) and isinstance(w.ast.value, ast.Attribute) and isinstance(w.ast.value.value, ast.Name) and w.ast.value.value.id == cfg_param
+                 and any(isinstance(t, ast.Name) for t in w.ast.targets) and any(d.id in icfg.reach_strict(w.id) for d in dnodes)]
+        bad = None
+        for w in early:
+            var = next(t.id for t in w.ast.targets if isinstance(t, ast.Name))
+            others = [x.id for x in icfg.writes(lambda t, v=var: t == v) if x.id != w.id]
+            for d in dnodes:
+                after = icfg.reach_strict(d.id, blocked=others)
+                for n in icfg.nodes:
+                    if n.id in after and n.ast is not None and n.kind in ("stmt", "return", "cond") and n.id != d.id and w.id not in (n.id,) \
+                            and any(isinstance(x, ast.Name) and x.id == var and isinstance(x.ctx, ast.Load) for x in walk_no_nested(n.ast)) and d.id in icfg.reach_strict(w.id):
+                        bad = (w, n, var)
+        if bad:
+            w, n, var = bad
+            r.fail(ci, n.ast, "`%s` read before the CONFIG event is used after it" % var, "%s keeps `%s` (%s), read before the CONFIG event was dispatched, and uses it afterwards (%s): when a CONFIG "
+                   "listener replaces that part of the configuration the application goes on with the old one - listeners registered on the new dispatcher for later events are never called" %
+                   (ci.short, var, norm(w.ast), norm(n.ast)[:60]))
+        else:
+            r.ok("%s: nothing read from the configuration before the CONFIG event is used after it (%d early reads)" % (ci.short, len(early)))
+
+    # ---------------------------------------------------------------- R14
+    r = ctx.rule("C12-R14", "SENTINEL", "an event name is a key like any other (0, '' and an enum member equal to 0 are names): the optional event-name parameter of the dispatcher's "
+                 "queries is tested against its sentinel (`is None` / `is not None`), never for truthiness, identically in every query", reference=3)
+    n14 = 0
+    for name, m in sorted(ed.methods.items()):
+        opt = [a for a in m.params if a in m.defaults and isinstance(m.defaults[a], ast.Constant) and m.defaults[a].value is None]
+        if not opt:
+            continue
+        mcfg = ctx.cfg(m)
+        for a in opt:
+            for c in mcfg.conds():
+                e = c.ast
+                if isinstance(e, ast.UnaryOp) and isinstance(e.op, ast.Not):
+                    e = e.operand
+                if isinstance(e, ast.Name) and e.id == a:
+                    n14 += 1
+                    r.fail(m, c.ast, "truthiness test of %s" % a, "%s.%s decides 'no event name given' by the truthiness of `%s`: a falsy event name (0, '', an IntEnum member 0) is treated as "
+                           "'all events' - has_listeners reports other events' listeners while get_listeners says there are none" % (ed.name, name, a))
+                elif isinstance(e, ast.Compare) and isinstance(e.left, ast.Name) and e.left.id == a and len(e.ops) == 1 and isinstance(e.ops[0], (ast.Is, ast.IsNot)) \
+                        and isinstance(e.comparators[0], ast.Constant) and e.comparators[0].value is None:
+                    n14 += 1
+                    r.ok("%s.%s: `%s` tested against None" % (ed.name, name, a))
+    ctx.require(n14 >= 1, "the optional event-name parameters of the dispatcher's queries were not found")
+
     return ctx.results
 
 
